@@ -176,3 +176,115 @@ Example C11_source_example :
   start_from_h5 gen_main_refuses_gridsize 3 (Some (2, [5; 6; 7; 8])) = None /\
   gen_use_step [5; 1; 2; 2] (-2) = 3.
 Proof. vm_compute. repeat split. Qed.
+
+(** * The same control flow, taken from the program generated from src/main.cpp
+
+    [Gen_MainLoop] (translate/mainloop2coq.py, regenerated on every run) gives the prologue
+    [main_pre] ("1) the integral" ... before the loop), the loop body [main_body], the final block
+    [main_post] and the set-up skeleton [main_setup], whose first `if (renormalize >= 0)` - the
+    initial renormalisation `updateXProjection(); normalize();` - is [main_setup_norm].  The
+    statements below say that what Model/Restart.v writes down by hand ([prepare], [head]/[stored],
+    [body], [single], [continued]) is what those generated statements do to the PhaseSpace object
+    [pst_of s] = (grid, cached x-projection, cached integral) of a driver state, for every kernel
+    record [K] (Restart's kernels are K's: projX = k_projX, integ = k_integ, normW f g = k_norm g f).
+    Names of the driver model are qualified where Model/Restart.v uses the same short name. *)
+From Inovesa Require Model.Driver Gen.Gen_MainLoop Proofs.DriverMainP Proofs.RestartGenP Model.DriverInst.
+
+(** 1b for the generated prologue (re-targets C11_caches_refreshed_before_first_step): whatever
+    caches the state carried, after the generated statements between "Starting the simulation."
+    and the loop the cached projection and integral are those of the grid; the grid is untouched *)
+Theorem C11_generated_prologue_refreshes_caches :
+  forall (K : Driver.kern) (cf : Driver.cfg) (s : Driver.st K),
+    let s' := Driver.exec_blk Driver.nosig cf Gen_MainLoop.main_pre s in
+    Driver.xp s' = Driver.k_projX K (Driver.g1 s') /\
+    Driver.fl s' = Driver.k_integ K (Driver.k_projX K (Driver.g1 s')) /\
+    Driver.g1 s' = Driver.g1 s.
+Proof. exact RestartGenP.pre_refreshes_fields. Qed.
+Print Assumptions C11_generated_prologue_refreshes_caches.
+
+(** [prepare] (theorems 1b and 2 above) is the generated initial renormalisation followed by the
+    generated prologue *)
+Theorem C11_prepare_is_generated :
+  RestartGenP.setup_norm_of Gen_MainLoop.main_setup = Some RestartGenP.main_setup_norm /\
+  forall (K : Driver.kern) (cf : Driver.cfg) (s : Driver.st K),
+    RestartGenP.pst_of K (Driver.exec_blk Driver.nosig cf Gen_MainLoop.main_pre
+                            (Driver.exec_blk Driver.nosig cf RestartGenP.main_setup_norm s))
+    = prepare (Driver.tG K) (Driver.tP K) (Driver.tFl K) (Driver.k_projX K) (Driver.k_integ K) (RestartGenP.normW K)
+              (Driver.renorm cf) (RestartGenP.pst_of K s).
+Proof. exact (conj RestartGenP.main_setup_norm_found RestartGenP.prepare_is_generated). Qed.
+Print Assumptions C11_prepare_is_generated.
+
+(** 3. final_block_matches_loop_head: with a results file the generated final block writes exactly
+    one phase-space record, tagged with the step counter, holding [stored] = the grid after the
+    loop head (`integrate` / `integrateAndNormalize` on the renormalisation schedule); every
+    phase-space record the generated output block writes at a loop head holds the same grid *)
+Theorem C11_final_block_matches_loop_head :
+  forall (K : Driver.kern) (cf : Driver.cfg) (s : Driver.st K),
+    (Driver.hdf cf = true ->
+     RestartGenP.ps_recs (Driver.emit Driver.nosig cf Gen_MainLoop.main_post s) =
+     [(Driver.k s, stored (Driver.tG K) (Driver.tP K) (Driver.tFl K) (Driver.k_integ K) (RestartGenP.normW K)
+                          (Driver.renorm cf) (Driver.k s) (RestartGenP.pst_of K s))]) /\
+    (let '(hd, ob, _, _) := DriverMainP.main_split in
+     Forall (fun x => x = (Driver.k s, stored (Driver.tG K) (Driver.tP K) (Driver.tFl K) (Driver.k_integ K) (RestartGenP.normW K)
+                                              (Driver.renorm cf) (Driver.k s) (RestartGenP.pst_of K s)))
+            (RestartGenP.ps_recs (Driver.emit Driver.nosig cf (Driver.bapp hd ob) s))).
+Proof. exact (fun K cf s => conj (RestartGenP.final_block_stores_head K cf s) (RestartGenP.out_block_stores_head K cf s)). Qed.
+Print Assumptions C11_final_block_matches_loop_head.
+
+(** one iteration of the generated loop body = [body] with the four maps of the step
+    ([maps_of]: wake kick from the projection the wake map was updated from - or the identity -,
+    RF kick with the table [rfo s], drift, Fokker-Planck), static RF map, wake objects that do not
+    depend on their previous contents (C18); the RF table is left alone, one step is counted *)
+Theorem C11_loop_body_is_generated :
+  forall (K : Driver.kern) (cf : Driver.cfg) (wf0 : Driver.tWf K) (wk0 : Driver.tW K) (s : Driver.st K),
+    Driver.dynrf cf = false -> RestartGenP.wake_history_free K ->
+    RestartGenP.pst_of K (Driver.exec_blk Driver.nosig cf Gen_MainLoop.main_body s) =
+    body (Driver.tG K) (Driver.tP K) (Driver.tFl K) (Driver.k_projX K) (Driver.k_integ K) (RestartGenP.normW K)
+         (RestartGenP.maps_of K cf wf0 wk0 (Driver.rfo s)) (Driver.renorm cf) (Driver.k s) (RestartGenP.pst_of K s) /\
+    Driver.rfo (Driver.exec_blk Driver.nosig cf Gen_MainLoop.main_body s) = Driver.rfo s /\
+    Driver.k (Driver.exec_blk Driver.nosig cf Gen_MainLoop.main_body s) = Driver.k s + 1.
+Proof. exact RestartGenP.body_is_generated. Qed.
+Print Assumptions C11_loop_body_is_generated.
+
+(** the phase-space record the generated program (initial renormalisation, prologue, n loop
+    iterations, final block) writes after n undisturbed steps is [single] *)
+Theorem C11_generated_final_record :
+  forall (K : Driver.kern) (cf : Driver.cfg) (wf0 : Driver.tWf K) (wk0 : Driver.tW K) (n : nat) (s0 : Driver.st K),
+    Driver.hdf cf = true -> Driver.dynrf cf = false -> RestartGenP.wake_history_free K -> Driver.k s0 = 0 ->
+    RestartGenP.gen_final K cf n s0 =
+    [(Z.of_nat n, single (Driver.tG K) (Driver.tP K) (Driver.tFl K) (Driver.k_projX K) (Driver.k_integ K) (RestartGenP.normW K)
+                         (RestartGenP.maps_of K cf wf0 wk0 (Driver.rfo s0)) (Driver.renorm cf) (Z.of_nat n) (RestartGenP.pst_of K s0))].
+Proof. exact RestartGenP.gen_final_is_single. Qed.
+Print Assumptions C11_generated_final_record.
+
+(** 4. continuation for the generated program: a state [sL] whose grid is record n1 of a first
+    run (caches: whatever the freshly constructed object held; same RF table), continued for n2
+    steps, ends in the record the uninterrupted run writes after n1+n2 steps - under exactly the
+    hypotheses of C11_continuation_equiv (stale integral f0 = cached integral of [sL]) *)
+Theorem C11_continuation_equiv_generated :
+  forall (K : Driver.kern) (cf : Driver.cfg) (wf0 : Driver.tWf K) (wk0 : Driver.tW K) (n1 n2 : nat) (s0 sL : Driver.st K),
+    Driver.hdf cf = true -> Driver.dynrf cf = false -> RestartGenP.wake_history_free K ->
+    Driver.k s0 = 0 -> Driver.k sL = 0 -> Driver.rfo sL = Driver.rfo s0 ->
+    RestartGenP.gen_final K cf n1 s0 = [(Z.of_nat n1, Driver.g1 sL)] ->
+    let G := Driver.tG K in let P := Driver.tP K in let F := Driver.tFl K in
+    let projX := Driver.k_projX K in let integ := Driver.k_integ K in let normW := RestartGenP.normW K in
+    let maps := RestartGenP.maps_of K cf wf0 wk0 (Driver.rfo s0) in
+    let r := Driver.renorm cf in
+    (r < 0 \/
+     (0 < r /\ (r | Z.of_nat n1) /\
+      (forall g, norm G P F projX integ normW (norm G P F projX integ normW g) = norm G P F projX integ normW g) /\
+      (forall g, norm G P F projX integ normW (snorm G F normW (Driver.fl sL) g) = norm G P F projX integ normW g) /\
+      (forall g x, maps (projX (snorm G F normW (Driver.fl sL) g)) x = maps (projX g) x) /\
+      (forall g x, maps (projX (norm G P F projX integ normW g)) x = maps (projX g) x))) ->
+    exists g, RestartGenP.gen_final K cf n2 sL = [(Z.of_nat n2, g)] /\
+              RestartGenP.gen_final K cf (n1 + n2) s0 = [(Z.of_nat (n1 + n2), g)].
+Proof. exact RestartGenP.gen_continuation. Qed.
+Print Assumptions C11_continuation_equiv_generated.
+
+(** non-vacuity: the hypotheses on the wake objects hold in the executable instance, and there the
+    generated program writes exactly one final phase-space record, at step 5 after 5 steps *)
+Example C11_generated_example :
+  RestartGenP.wake_history_free DriverInst.unitK /\
+  RestartGenP.gen_final DriverInst.unitK (Driver.mkcfg 8 2 1 (-1) true true false) 5
+    (DriverInst.st_init (Driver.mkcfg 8 2 1 (-1) true true false)) = [(5, tt)].
+Proof. split; [split; reflexivity | vm_compute; reflexivity]. Qed.
